@@ -192,19 +192,36 @@ def run(ctx):
                 if owner != "values::ValueReference::as_mut":
                     ctx.report("C03-literal-immutable", "cell-mutation/" + owner, "%s mutates shared storage directly (%s)" % (owner, callee(t)), where_of(g, t))
     am = fb.find("values::ValueReference::as_mut")
+    from . import machine as _mch
     for i, vn in fb.variants("values::ValueReference"):
+        cell = object()
+        recv = absint.Enum(i, [cell])
+        recv.name, recv.adt = vn, "values::ValueReference"
         try:
-            kind, b, env = absint.run_fragment(am, 0, {1: absint.Enum(i, [absint.UNKNOWN])}, oracle=lambda *a: None)
-            r = env.get(0)
-            res = getattr(r, "name", "?")
-        except (absint.Stuck, absint.Loop):
-            res = "stuck"
+            r = _mch.Machine(fb, intercept=lambda mc, c, a, tt, g: ("text" if c.endswith("to_string") else _mch.NOT), max_visits=6, budget=300).run(am, [recv])
+            res = getattr(r, "name", "?") if isinstance(r, absint.Enum) else "?"
+        except (absint.Stuck, absint.Loop) as e:
+            ctx.undecided("C03-literal-immutable", "as_mut/" + vn, "cannot follow ValueReference::as_mut on %s (%s)" % (vn, e), where_of(am))
+            continue
         want = "Err" if vn == "Immutable" else "Ok"
         ctx.inst("C03-literal-immutable", "as_mut/" + vn, {"result": res})
-        if res != want:
+        if res not in ("Ok", "Err"):
+            ctx.undecided("C03-literal-immutable", "as_mut/" + vn, "as_mut on %s yields %r" % (vn, r), where_of(am))
+        elif res != want:
             ctx.report("C03-literal-immutable", "as_mut/" + vn, "as_mut on an %s vector is %s, expected %s" % (vn, res, want), where_of(am))
-    if not any(v == "RequiresMutable" for _, _, _, _, v in mir.aggregates(am)):
-        ctx.report("C03-literal-immutable", "as_mut/error-kind", "as_mut does not build RequiresMutable", where_of(am))
+        elif want == "Err":
+            names = set()
+
+            def _k(v, d=0):
+                if isinstance(v, absint.Enum) and d < 8:
+                    if getattr(v, "name", None):
+                        names.add(v.name)
+                    for x in v.fields:
+                        _k(x, d + 1)
+            _k(r)
+            if "RequiresMutable" not in names:
+                ctx.report("C03-literal-immutable", "as_mut/error-kind", "as_mut on a literal vector fails with %s, expected RequiresMutable" % sorted(
+                    names - {"Err", "Located", "None", "Some"}), where_of(am))
     ctx.floor("C03-literal-immutable", 6)
 
     return EXPLANATION, NOT_DECIDED
